@@ -95,8 +95,10 @@ def run(rep, tier):
                 "non-trivial = distinct behaviours that wrap at least one container; traces = seeded random histories "
                 "validated by Trace_Ownership.tla")
     rep.assumptions += ["foreign code honours its contract (no use of a destroyed handle; containers passed back at most once)",
-                        "leg (b) (generated C/C++ API under ASan) is part of the compile-and-run checks"]
+                        "leg (b): seeded histories through the generated C API under ASan/LSan with a Rust-side drop log (C++ unique_ptr paths are exercised by C02)"]
     model(rep, tier)
     replay_leg(rep, tier)
     trace_leg(rep, tier)
+    import c03b
+    c03b.run_leg(rep, tier)
     rep.exhaustive = True
